@@ -572,4 +572,6 @@ def run(P, R, tier):
     word_parameters(P, R)
     if not configured_member_words(P, R):
         raise AnalysisBroken('no request member sent as a word is filled from a configured text')
+    # ... and the strlcpy those copies go through keeps its own promise
+    _bnd.fallback_strlcpy(P, R, 'C09.BND.3')
     return EXPLANATION, ASSUMPTIONS
